@@ -20,17 +20,22 @@ META = {
                  "+ translator-regenerated face tables / index expressions / comparisons / orientation test / det_3x3 / "
                  "lazy-guard tables + kernel-checked correspondence batches on generated tetrahedral meshes with random "
                  "query scripts",
-    "level_text": "Machine-checked Coq theorems, for every tetrahedral cell list, about an executable model of "
-                  "volume.py's connectivity, of the face/edge completion and of both boundary extractors; the convention "
-                  "tables, the index expression C[:i]+C[i+1:], the comparisons, the orientation test with det_3x3 and the "
-                  "lazy-cache guard tables are regenerated from the source on every run. See the list of theorems in "
-                  "coq/theories/C03/Props.v: full = incidence tables (face_to_cells, cell_to_face, cell_to_cell, "
-                  "vertex_to_cell, edge_to_face, edge_to_cell), border classification and exact partitions, orientation "
-                  "identity and outwardness of both extractors, vertex/face index maps inverse, query-order independence "
-                  "of the caches; partial (named) = rotational order around an edge, closedness of the boundary, edge "
-                  "index maps; refuted (known finding) = rotational sorting on a conforming mesh with an edge whose cells "
-                  "are not face-connected raises KeyError. The hand-written part of the model is tied to the code by "
-                  "kernel-evaluated correspondence batches.",
+    "level_text": "Machine-checked Coq theorems, for every tetrahedral cell list (any size, numbering, vertex order), about an "
+                  "executable model of volume.py's connectivity, of the face/edge completion and of both boundary "
+                  "extractors; the convention tables, the index expression C[:i]+C[i+1:], the comparisons, the orientation "
+                  "test with det_3x3 and the lazy-cache guard tables are regenerated from the source on every run. "
+                  "FULL: incidence tables equal brute force (face_to_cells, cell_to_face with i-th face opposite i-th "
+                  "vertex, cell_to_cell under conformity, vertex_to_cell, edge_to_face, edge_to_cell as sets), no "
+                  "exception while building them; border classification of faces/vertices/edges and exact partitions; "
+                  "boundary closed (every vertex pair lies in an even number of border faces, handshake proof); "
+                  "orientation identity and outwardness over R and over Z for _BoundaryConnectivity, outwardness of the "
+                  "standalone extractor when cells are positive in mouette's determinant; vertex/face index maps "
+                  "inverse; no AttributeError for any query order. PARTIAL (named _partial): rotational order around an "
+                  "edge (walks terminate, visit distinct cells, consecutive cells share a face through the edge; the final "
+                  "sort/coverage is only tested), edge index maps (inverse on their domains; totality tested). REFUTED "
+                  "(known finding): rotational sorting raises KeyError on a conforming mesh with an edge whose cells are "
+                  "not face-connected. The hand-written part of the model is tied to the code by kernel-evaluated "
+                  "correspondence batches on generated meshes with random query scripts.",
     "level_note": "Trusted: Coq kernel + vm_compute; the c03 translator; the correspondence harness (mesh generators, "
                   "driver canonicalisation); CPython dict/set/list semantics (set enumeration order enters the model as a "
                   "parameter: the observed order must be a permutation of the model's set); float arithmetic of det_3x3 is "
@@ -322,7 +327,7 @@ WITNESS = {"V": [[0, 0, 0], [1, 0, 0], [0, 1, 0], [0, 0, 1], [0, -1, 0], [0, 0, 
 
 def run(ctx):
     quick = ctx.tier == "quick"
-    n_cases = 400 if quick else 15000
+    n_cases = 320 if quick else 10000
     ctx.rule = ("tetrahedral meshes from seeds (single tet, 5-/6-tet cubes, cube grids, two tets glued along an edge or a "
                 "vertex) under conformity-preserving edits (cell 1->4, face split, edge split, cell deletion), random "
                 "renumbering, random cell order, random vertex order in each cell (random / all positive / all negative), "
@@ -373,7 +378,7 @@ def run(ctx):
     bad = []
     if b["model_ok"]:
         terms = [case_term(c, o) for c, o in zip(cases, obs)]
-        bad = ctx.run_cases("conn", HEADER, terms, "check_case", case_type="case", shard=25 if quick else 60, timeout=900)
+        bad = ctx.run_cases("conn", HEADER, terms, "check_case", case_type="case", shard=20 if quick else 80, timeout=900)
     else:
         ctx.obligation("correspondence batches", "correspondence", False, "model does not compile")
 
